@@ -42,7 +42,7 @@ Dom == [ mode      |-> << "hq_lossless", "hq_lossy", "ld_lossy" >>,
          qm        |-> << "default", "zeros", "ramp" >>,
          npics     |-> << 1, 2, 3, 4 >>,
          pn        |-> << "auto", "zero", "seven", "wrap2", "wrap1" >>,
-         pb        |-> << "min", "minp1", "small", "q0", "scaler" >>,
+         pb        |-> << "min", "minp1", "small", "q0", "scaler", "edge255", "edge256" >>,
          minq      |-> << 0, 3, 20 >>,
          minscaler |-> << 1, 2, 3 >>,
          content   |-> << "random", "zeros", "max", "checker", "mid", "impulse" >> ]
